@@ -1,11 +1,16 @@
 """C19 - what is drawn is the object: paths pass through the vertices along geodesics (DESIGN.md section 3, C19).
 
-matplotlib's Path.arc / Arc / collections are externals whose internals no contract here reaches; the geometric claim is
-therefore checked only by the labelled bounded stand-in, on real artists created on an Agg canvas."""
+matplotlib's Path.arc / Arc / collections are externals whose internals no contract here reaches; what they do with the
+arc data is checked only by the labelled bounded stand-in, on real artists created on an Agg canvas.  The arc data itself
+(the centre, radius and pair of angles that draw_geodesic / get_polygon_arcpath pass to Arc / Path.arc) is under an
+Engine R contract: the circle arc they describe starts and ends at the segment's two endpoints.  Assumed contract of the
+externals: Arc(c, 2r, 2r, theta1, theta2) and Path.arc(theta1, theta2) scaled by r and translated by c trace the circle
+|x - c| = r from c + r e^{i theta1} to c + r e^{i theta2}."""
 import os
 os.environ.setdefault("MPLBACKEND", "Agg")
 import numpy as np
-from vf.api import bounded
+from vf.api import bounded, rcontract
+from geometry_tools import hyperbolic as h
 from contracts import spec
 
 P = "C19"
@@ -14,6 +19,42 @@ F_ALL = [D + "HyperbolicDrawing.preprocess_object", D + "ProjectiveDrawing.prepr
          D + "HyperbolicDrawing.get_polygon_arcpath", D + "HyperbolicDrawing.draw_polygon", D + "HyperbolicDrawing.get_vertical_segment", D + "HyperbolicDrawing.draw_geodesic",
          D + "HyperbolicDrawing.draw_point", D + "HyperbolicDrawing.draw_horosphere", D + "HyperbolicDrawing.draw_horoarc", D + "ProjectiveDrawing.draw_point",
          D + "ProjectiveDrawing.draw_proj_segment", D + "ProjectiveDrawing.draw_polygon"]
+
+HY = "geometry_tools/hyperbolic.py:"
+UC = "geometry_tools/utils/core.py:"
+
+
+@rcontract(P, "arc_data_ends_at_the_endpoints", instances=[dict(model="halfspace")], thorough=[dict(model="poincare")], timeout=240.0, max_paths=80,
+           functions=[HY + "Segment.circle_parameters", HY + "Subspace.sphere_parameters", HY + "PointPair.endpoint_coords", UC + "circle_angles", UC + "short_arc",
+                      UC + "right_to_left", D + "HyperbolicDrawing.draw_geodesic", D + "HyperbolicDrawing.get_polygon_arcpath"])
+def arc_data_ends_at_the_endpoints(ctx, model):
+    """the (centre, radius, angles) triple that draw_geodesic hands to Arc and get_polygon_arcpath hands to get_circle_arcpath:
+    the two arc ends c + r (cos th_i, sin th_i) are the two endpoints of the segment (in either order: the angles are reported
+    counterclockwise; stated through the symmetric functions sum / product per coordinate and the mixed sum x0 y0 + x1 y1).  Preconditions: distinct interior endpoints; Poincare: geodesic not through the
+    origin; half-space: the Klein line misses the half-space point at infinity e_0 (otherwise the straight substitute is drawn)."""
+    n = 2
+    k = ctx.reals('k', (n,), lambda r: r.uniform(-0.55, 0.55, n))
+    l = ctx.reals('l', (n,), lambda r: r.uniform(-0.55, 0.55, n))
+    ctx.assume(spec.nsq(k), '<', 1)
+    ctx.assume(spec.nsq(l), '<', 1)
+    ctx.assume(spec.nsq(k - l), '>', 0)
+    if model == "poincare":
+        cr = k[0] * l[1] - k[1] * l[0]
+    else:
+        cr = (k[0] - 1) * l[1] - k[1] * (l[0] - 1)
+    ctx.assume(cr * cr, '>', 0)
+    S = h.Segment(h.Point(np.array(k, copy=True), model="klein"), h.Point(np.array(l, copy=True), model="klein"))
+    c, r, th = S.circle_parameters(model=model, degrees=False)
+    ends = S.endpoint_coords(model)
+    scale = 1 + spec.nsq(c) + r * r
+    arc_end = [np.array([c[0] + r * np.cos(th[i]), c[1] + r * np.sin(th[i])], dtype=object) for i in range(2)]
+    # order-independent (the angles are reported counterclockwise, so either arc end may be either endpoint)
+    u = [np.array([np.cos(th[i]), np.sin(th[i])], dtype=object) for i in range(2)]
+    cross = lambda a_, b_: a_[0] * b_[1] - a_[1] * b_[0]
+    E, F = ends[0] - c, ends[1] - c
+    for i in range(2):
+        ctx.ensure_eq(f'arc_end{i}_points_at_an_endpoint', cross(u[i], E) * cross(u[i], F) / (scale * scale), 0, tol=1e-6)
+    ctx.ensure('radius_positive', r, '>', 0)
 
 
 def _k2model(k, model):
